@@ -219,6 +219,30 @@ func genTree(d int, nterms int) *tree {
 	return &tree{op: op, l: genTree(d-1, nterms), r: genTree(d-1, nterms)}
 }
 
+// expansion size of a tree: alternatives and term slots of its disjunctive form (what Satisfies / ExtractLicenses
+// materialise — the cost recorded as the known finding of C14); generators keep below a bound so that one call stays cheap
+func (t *tree) expansion() (alts, slots float64) {
+	if t.isLeaf() {
+		return 1, 1
+	}
+	la, ls := t.l.expansion()
+	ra, rs := t.r.expansion()
+	if t.op == "OR" {
+		return la + ra, ls + rs
+	}
+	return la * ra, ls*ra + rs*la
+}
+
+func genTreeBounded(d int, nterms int, maxSlots float64) *tree {
+	for {
+		t := genTree(d, nterms)
+		if _, s := t.expansion(); s <= maxSlots {
+			return t
+		}
+		count("generator_tree_dropped_expansion_too_large")
+	}
+}
+
 func leafT(i int) *tree        { return &tree{leaf: i} }
 func andT(l, r *tree) *tree    { return &tree{op: "AND", l: l, r: r} }
 func orT(l, r *tree) *tree     { return &tree{op: "OR", l: l, r: r} }
